@@ -118,6 +118,22 @@ CHECKS["C14"] = dict(
    note="Known finding (not repaired, see known_findings.jsonl): at exactly horizontal thrust both flatness references return r = inf and NaN moment. Saturated and SE_2(3)-rotation forces are evaluated in the harness from the saturation formula. Built by a sub-task; 10 code mutations detected.",
 )
 
+CHECKS["C09"] = dict(
+   technique="TLA+ spec Codegen.tla (configuration model: equation set x generator option assignment, pairwise-covering/exhaustive option lattices proven covering by TLC, artefact inventory contract, per-function input-pattern designs) model-checked by TLC; every state drives the repository's own generate_code, the emitted C is parsed, compiled with gcc and compared with the symbolic CasADi function (differential)",
+   category="translation_validation",
+   text="The clauses quantified over configurations are decided with the spec: TLC enumerates every (equation set, option assignment) - all 2^n assignments in thorough, a TLC-proven pairwise-covering array plus all single toggles and the default/implicit-default rows in quick - with the expected artefact inventory; the real generator must succeed on every row and emit exactly the shipped functions once each, with the symbolic function's arity, argument names and sparsity. The value clause is a differential test driven by TLC-enumerated input designs (branch-selecting patterns incl. the Alloc tie/saturation cells): 35 compiled C functions vs the symbolic functions, <= 4 ulp and identical NaN pattern, with measured branch coverage (>= 75% of comparison nodes driven both ways).",
+   design_ref="6/C09, 12",
+   note="The spec is a configuration model, not a semantic one: equality of C and symbolic code for ALL inputs and structural matching of the C text are not decided (differential on the enumerated inputs only). Export lists and option keys are extracted from the repository at run time. Built by a sub-task.",
+   engine="tlc+codegen-differential",
+)
+CHECKS["C17"] = dict(
+   technique="TLA+ specs Cascade.tla (launch lattice enumerated by TLC; phase envelope, motor limits, integrator bounds as invariants; temporal reading checked on an abstract model) and CascadeTrace.tla (every control period of every recorded closed-loop history bound to the spec variables and checked against every invariant) - trace validation of the real closed loop",
+   category="model_checking",
+   text="TLC enumerates launch conditions (offsets {0,+-1,+-3}^3 m, attitudes from integer quaternions up to 60 degrees, unit velocities and body rates, both cascades). The real closed loop - quadrotor f under RK4 at 1 kHz plus the shipped CasADi controllers and allocator, wired and gained as in scripts/rdd2_sim.py (gains and call wiring extracted from its source by ast at run time; a changed wiring is a machinery failure, a changed gain is picked up) - runs 30 s per launch; TLC validates all 3001 control periods of every history: no NaN, motors within [0, sqrt(F_max/C_T)], integrators bounded, tilt/heading/rate settled from 10 s, position error <= 50 mm from 25 s to the end, each clause a named invariant. 16 histories quick, 660 thorough (1.98 M events), with a corruption self-test (10 variants must be rejected).",
+   design_ref="6/C17",
+   note="Monitoring of a finite lattice, not prediction; heading commands != 0 are outside the property's stated domain and are reported as SPEC-DRIFT only (the loglinear outer loop diverges there - see DESIGN.md 13.4). RK4 instead of the script's cvodes. Built by a sub-task.",
+)
+
 NOT_YET = {}
 
 ALL = [f"C{i:02d}" for i in range(1, 21)]
